@@ -23,8 +23,9 @@ Everything the executor does not decide itself is an INPUT carried by the label:
   stream built-ins).
 So the theorems of `Props/C22.lean` / `Props/C23.lean`, which quantify over all label sequences,
 hold for EVERY behaviour of the polled futures (any task body, any `FuturesUnordered` polling order)
-and every host answer.  `wake`, `reg`, `unreg`, `cloneRef`, `dropRef` are accepted at every program
-point (other tasks run while this one is idle; wakers outlive the task).
+and every host answer.  `wake`, `reg`, `unreg`, `cloneRef`, `dropRef`, `tok` are accepted wherever code outside
+the executor can run (`userPc`): inside user code called by the executor, and between callbacks /
+after exit (other tasks run while this one is idle; wakers outlive the task).
 The script interpreter `ExecScript.lean` drives this very `step` with the labels a script produces;
 its output is compared with the real runtime's trace.  Import-free.
 -/
@@ -65,7 +66,8 @@ structure St where
   waitables : List Nat           -- keys of `SharedTaskState::waitables`
   set : Option Nat               -- `SharedTaskState::waitable_set`
   tasksEmpty : Bool              -- `self.tasks.is_empty()`
-  refs : Nat                     -- strong count of `Arc<SharedTaskState>`
+  clones : Nat                   -- strong references to the `Arc<SharedTaskState>` held OUTSIDE the `TaskState`
+                                 -- (waker clones, C-ABI `clone`s); the `TaskState` itself holds two (`shared`, `waker`)
   sharedGone : Bool              -- the `SharedTaskState` has been dropped
   ctx : Bool                     -- this task's context slot 0 is non-null
   last : Option CbCode           -- what the previous callback answered
@@ -75,7 +77,7 @@ structure St where
   polled : Bool                  -- `tasks.poll_next` ran in the current callback
   members : List Nat             -- waitables this executor has joined to `set` and not removed
   drops : Nat                    -- how many times the `TaskState` destructor ran
-  sleeps : Nat                   -- how often the task went to sleep on the wake-up stream
+  sleeps : Nat                   -- how often SLEEP_STATE_SLEEPING was stored
   reads : Nat                    -- `stream.read` calls on the wake-up stream
   writes : Nat                   -- `stream.write` calls on the wake-up stream
 deriving DecidableEq, Repr
@@ -83,7 +85,7 @@ deriving DecidableEq, Repr
 def St.init (driver : Driver) (itw : Bool) : St :=
   { driver, pc := if driver = .start then .fresh else .idle,
     wk := ⟨itw, 0, none, false⟩, waitables := [], set := none, tasksEmpty := false,
-    refs := 2, sharedGone := false, ctx := false, last := none,
+    clones := 0, sharedGone := false, ctx := false, last := none,
     ev0 := 0, woken := false, polled := false, members := [], drops := 0, sleeps := 0, reads := 0, writes := 0 }
 
 inductive Label
@@ -104,11 +106,11 @@ deriving DecidableEq, Repr
 
 def ins (l : List Nat) (x : Nat) : List Nat := if l.contains x then l else l ++ [x]
 
-/-- `CallbackCode::encode` -/
+/-- `CallbackCode::encode` (`u32` arithmetic: `2 | (waitable << 4)` loses the bits shifted out) -/
 def encode : CbCode → Nat
   | .exit => Limits.callbackExit
   | .yield => Limits.callbackYield
-  | .wait s => Limits.callbackWaitTag + s * 2 ^ Limits.callbackWaitShift
+  | .wait s => (Limits.callbackWaitTag + s * 2 ^ Limits.callbackWaitShift) % 2 ^ 32
 
 /-- how the host (and the harness) reads a callback code back: `code & 0xf`, `code >> 4` -/
 def decode (n : Nat) : Option CbCode :=
@@ -136,11 +138,8 @@ def sharedDropEvs (s : St) : List Ev :=
   (match s.wk.stream with | some (_, w) => [.x .usDropW [w]] | none => []) ++
   (match s.set with | some x => [.setDrop x] | none => [])
 
-/-- one strong reference to the `SharedTaskState` goes away -/
-def decRef (s : St) (n : Nat) : Step St :=
-  if s.refs < n then .panic "model: reference count underflow" []
-  else if s.refs = n then .ok { s with refs := 0, sharedGone := true } (sharedDropEvs s)
-  else .ok { s with refs := s.refs - n } []
+/-- the last strong reference went away: `SharedTaskState` is dropped -/
+def dropShared (s : St) : Step St := .ok { s with sharedGone := true } (sharedDropEvs s)
 
 /-- `TaskState::callback(e, w, c)` after the context-slot handling of its caller -/
 def enter (s : St) (e w c : Nat) : Step St :=
@@ -152,29 +151,42 @@ def enter (s : St) (e w c : Nat) : Step St :=
     if e ≠ Limits.eventNone then .ok { s1 with pc := .deliver w c .cancelWake } []
     else .ok { s1 with pc := .cancelWake } []
 
+/-- program points at which code outside the executor can run: user code called by the executor (the
+C-ABI completion callback, polled futures, destructors), and — while no callback of this task runs —
+other tasks and the host (`fresh`, `idle`, `gone`).  The runtime is single-threaded: nothing else runs
+between the other program points. -/
 def userPc : Pc → Bool
-  | .inCb _ | .pollTasks | .dropTasks => true
+  | .inCb _ | .pollTasks | .dropTasks | .fresh | .idle | .gone => true
   | _ => false
 
 def step (s : St) (l : Label) : Step St :=
   match l with
-  -- ---------------------------------------------------------------- inputs accepted everywhere
-  | .tok e => .ok s [e]
+  -- ---------------------------------------------------------------- code outside the executor
+  | .tok e => if !userPc s.pc then .panic "model: user code cannot run here" [] else .ok s [e]
   | .wake ans =>
-    if s.sharedGone then .panic "model: wake through a dangling reference" []
+    if !userPc s.pc then .panic "model: user code cannot run here" []
+    else if s.sharedGone then .panic "model: wake through a dangling reference" []
     else (wakeByRef s.wk ans).bind fun k =>
       .ok { s with wk := k, woken := true,
                    writes := if s.wk.sleep = Limits.sleepStateSleeping then s.writes + 1 else s.writes } []
   | .cloneRef =>
-    if s.sharedGone then .panic "model: clone of a dangling reference" [] else .ok { s with refs := s.refs + 1 } []
-  | .dropRef => if s.sharedGone then .panic "model: drop of a dangling reference" [] else decRef s 1
+    if !userPc s.pc then .panic "model: user code cannot run here" []
+    else if s.sharedGone then .panic "model: clone of a dangling reference" [] else .ok { s with clones := s.clones + 1 } []
+  | .dropRef =>
+    if !userPc s.pc then .panic "model: user code cannot run here" []
+    else if s.sharedGone then .panic "model: drop of a dangling reference" []
+    else if s.clones = 0 then .panic "model: drop of a reference nobody holds" []
+    else if s.clones = 1 ∧ s.pc = .gone then dropShared { s with clones := 0 }
+    else .ok { s with clones := s.clones - 1 } []
   | .reg w newSet =>
     -- `SharedTaskState::waitable_register`
-    if s.sharedGone then .panic "model: register through a dangling reference" []
+    if !userPc s.pc then .panic "model: user code cannot run here" []
+    else if s.sharedGone then .panic "model: register through a dangling reference" []
     else (addWaitable s w newSet).bind fun s1 => .ok { s1 with waitables := ins s1.waitables w } []
   | .unreg w =>
     -- `SharedTaskState::waitable_unregister`
-    if s.sharedGone then .panic "model: unregister through a dangling reference" []
+    if !userPc s.pc then .panic "model: user code cannot run here" []
+    else if s.sharedGone then .panic "model: unregister through a dangling reference" []
     else .ok { s with waitables := s.waitables.erase w, members := s.members.erase w } [.join w 0]
   -- ---------------------------------------------------------------- the executor proper
   | .start =>
@@ -208,7 +220,7 @@ def step (s : St) (l : Label) : Step St :=
     | _ => .panic "model: call while not idle" []
   | .tau =>
     match s.pc with
-    | .deliver w c next =>
+    | .deliver w _ next =>
       -- `deliver_waitable_event`: leave every set, then the wake-up stream or the registered callback
       let s1 := { s with members := s.members.erase w }
       let (k, mine) := consume s.wk w
@@ -220,7 +232,7 @@ def step (s : St) (l : Label) : Step St :=
       .ok { s with wk := { s.wk with sleep := Limits.sleepStatePolling }, woken := false, pc := .pollTasks } []
     | .dropFields =>
       -- fields in declaration order: tasks (empty), shared, waker, inter_task_wakeup (the reader)
-      (decRef s 2).bind fun s1 =>
+      (if s.clones = 0 then dropShared s else .ok s []).bind fun s1 =>
         let rd : List Ev := match s.wk.stream with | some (r, _) => [.x .usDropR [r]] | none => []
         let fin : List Ev := match s.driver with | .start => [.cb .exit] | .block => []
         .ok { s1 with pc := .gone, last := some .exit } (rd ++ fin)
@@ -264,7 +276,7 @@ def step (s : St) (l : Label) : Step St :=
               if e ≠ Limits.eventNone then .ok { s with pc := .deliver w c .setPolling } []
               else answer s .yield
         else answer s .yield
-      else .ok { s with wk := { s.wk with sleep := Limits.sleepStateSleeping }, pc := .sleep } []
+      else .ok { s with wk := { s.wk with sleep := Limits.sleepStateSleeping }, sleeps := s.sleeps + 1, pc := .sleep } []
     | _ => .panic "model: decide out of place" []
   | .sleepRead r w newSet ans =>
     match s.pc with
@@ -277,7 +289,7 @@ def step (s : St) (l : Label) : Step St :=
           | some x => answer s (.wait x)
       else
         (startRead s.wk r w ans).bind fun (k, h) =>
-          let s1 := { s with wk := k, sleeps := s.sleeps + 1, reads := if h.isSome then s.reads + 1 else s.reads }
+          let s1 := { s with wk := k, reads := if h.isSome then s.reads + 1 else s.reads }
           (match h with
             | some rh => addWaitable s1 rh newSet
             | none => .ok s1 []).bind fun s2 =>
